@@ -93,7 +93,7 @@ def conditions(tier):
     T = 1200 if quick else 7200
     conds = []
     # quartile cuts of the invertible alphabet, so that 16 cores share the table
-    nparts = 6 if quick else 12
+    nparts = 6
     cuts = [INV[(len(INV) * k) // nparts] for k in range(1, nparts)]
     ranges = list(zip([0] + cuts, cuts + [0x110000]))
     combos = [('braces', False, '?a'), ('braces', False, '? b'), ('braces', True, 'a?'), ('braces-all', False, '?a'),
@@ -101,7 +101,7 @@ def conditions(tier):
               ('braces', False, '?\n')]
     if not quick:
         combos = [(sc, st, sk) for sc in SCHEMES for st in (False, True)
-                  for sk in ('?', '?a', 'a?', '? b', '?1', '?.', '.?', '?\n', ' ? ', 'a?b', '?{')]
+                  for sk in ('?', '?a', 'a?', '? b', '?\n', 'a?b')]
     for sc, st, sk in combos:
         for lo, hi in ranges:
             i = sk.index('?')
@@ -130,7 +130,7 @@ META = dict(
                       'printable ASCII minus the %d listed in data/c08_noninvertible.json) next to pinned ASCII neighbours (letter '
                       'after, space+letter after, letter before, newline after) under 8 scheme / whitespace-policy combinations; an '
                       'Greek letter between two free printable ASCII characters' % (len(INV), len(NONINV)),
-                thorough='all 4 schemes x 2 policies x 11 neighbour skeletons'),
+                thorough='all 4 schemes x 2 policies x 6 neighbour skeletons'),
     stubs=['unicodedata.normalize: real function for the wildcard conditions (the character is pinned on each path), identity for the free-ASCII-neighbour condition', 'BisectMap around the table',
            'step budget', 'logging disabled'],
     outside=['two non-ASCII characters next to each other', 'the characters in data/c08_noninvertible.json (many-to-one '
